@@ -21,15 +21,15 @@ func init() {
 		Title: "Live index and corpus always equal what a restart would load",
 		Explanation: "Decided (structural necessary conditions, all in pkg/index): " +
 			"K-tables — the three row-kind tables agree: every prefix in slurpPrefixes (what a restart scans) has a non-nil merge function in corpusMergeFunc and is spelt with the separator the indexer actually writes for that kind; every non-nil merge function's kind is in slurpPrefixes; every row kind the indexer can write (keys given to mutationMap.Set, stored into mutationMap.kv, or written straight to the sorted.KeyValue) is classified — a key of corpusMergeFunc or an entry of the reasoned index-only table; scanFromStorage scans exactly slurpPrefixes (explicit head + the ranged tail); the live merge in Corpus.addBlob dispatches through corpusMergeFunc[typeOfKey(k)] on the very (k,v) of mm.kv behind a gate equivalent to the load set; slurpedKeyType is built only from slurpPrefixes; scanPrefix dispatches through the same table. " +
-			"K-owner — who may write the caches that a restart rebuilds from rows: Index.deletes is (re)assigned only by the loader of 'deleted' rows (before it reads them) or on a freshly allocated Index that is not loaded afterwards; its map is written only by the constructor, the loader and the live updater, and every call of the live updater comes after a successful CommitBatch with a claim taken from mm.deletes; New's success returns are dominated by both loaders or lie in the about-to-reindex branch with a fresh cache; Index.needs/neededBy/readyReindex are written only by the tabled functions, and the in-memory adder is called only from the 'missing' row loader or after the matching 'missing' row was written successfully; Corpus fields are written only by *Corpus methods (or the constructor) that are reachable only from the load entry (scanFromStorage) or the live entry (addBlob); mutationMap.deletes is written only by noteDelete. " +
+			"K-owner — who may write the caches that a restart rebuilds from rows: Index.deletes is (re)assigned only by the loader of 'deleted' rows (before it reads them) or on a freshly allocated Index that is not loaded afterwards; its map is written only by the constructor, the loader and the live updater, and every call of the live updater comes after a successful CommitBatch with a claim taken from mm.deletes; New's success returns are dominated by both loaders or lie in the about-to-reindex branch with a fresh cache; Index.needs/neededBy/readyReindex are written only by the tabled functions, and the in-memory adder is called only from the 'missing' row loader or after the matching 'missing' row was written successfully; Corpus fields are written only by *Corpus methods (or the constructor) that are reachable only from the load entry (scanFromStorage) or the live entry (addBlob); Corpus.deletes is written only by its 'deleted'-row loader, which dominates every success return of scanFromStorage, and by the live updater, every caller of which passes a claim of mm.deletes; Index.corpus is only ever NewCorpusFromStorage(x.s) of the same index and Index.s is never replaced on a live index (one reasoned test hook); mutationMap.deletes is written only by noteDelete. " +
 			"K-delete-row — every mm.noteDelete(cl) is dominated by an mm.Set of a keyDeleted row on the same mm whose key parts are cl.Target(), cl.ClaimDateString(), cl.Blob().BlobRef() in the order kvDeleted reads them (or by a successful call of a function all of whose success returns are so dominated), and every keyDeleted row put into mm is followed on all paths by noteDelete on that mm. " +
-			"K-live — in every caller of Index.commit/Corpus.addBlob (today ReceiveBlob only): addBlob receives the same mutationMap commit wrote, is dominated by commit's success, runs under the index write lock, and every path from a successful commit to a success return passes addBlob unless the corpus is nil; commit applies mm.deletes to the index cache only after CommitBatch succeeded and writes every (k,v) of mm.kv into the batch it commits; rows of a kind the corpus merges are never written to the store behind the corpus's back (direct KeyValue.Set/Delete sites write only non-slurped kinds; one reasoned exception). " +
-			"NOT decided: that the merge functions compute from a row the same state live as at load for every history (e.g. ordering effects, the duplicate-blob early return of addBlob, PermanodeMeta caches), equality of query answers for any concrete arrival history or sorted.KeyValue backend, behaviour of out-of-order arrival, contents of rows.",
+			"K-live — in every caller of Index.commit/Corpus.addBlob (today ReceiveBlob only): addBlob receives the same mutationMap commit wrote, is dominated by commit's success, runs under the index write lock, and every path from a successful commit to a success return passes addBlob unless the corpus is nil; commit applies mm.deletes to the index cache only after CommitBatch succeeded and writes every (k,v) of mm.kv into the batch it commits; rows of a kind the corpus merges are never written to the store behind the corpus's back (direct KeyValue.Set/Delete sites write only non-slurped kinds; one reasoned exception); every success return of addBlob comes after its merge loops over mm.kv and mm.deletes (violated on the current tree by the duplicate-blob early return: a delete claim that arrived before its target is committed twice, the second time with its 'deleted' and 'claim' rows, and the live corpus skips that second mutation map). " +
+			"NOT decided: that the merge functions compute from a row the same state live as at load for every history (e.g. ordering effects, the `building`-only update of hasLegacySHA1, PermanodeMeta caches), equality of query answers for any concrete arrival history or sorted.KeyValue backend, behaviour of out-of-order arrival, contents of rows.",
 		RuleDocs: map[string]string{
 			"K-tables":     "H6 table agreement over slurpPrefixes / corpusMergeFunc / written row kinds (+ separators), scan set, live-merge gate and dispatch",
 			"K-owner":      "H5 who-may-write: Index.deletes (+ its map), Index.needs/neededBy/readyReindex, Corpus fields, mutationMap.deletes; open path loads both caches",
 			"K-delete-row": "H2: noteDelete only where the 'deleted' row for the same claim was put into the same mutation map, and vice versa",
-			"K-live":       "H7/H3/H2: addBlob gets the committed mm, after commit success, under the write lock; commit feeds caches only after CommitBatch; no slurped row kind bypasses commit",
+			"K-live":       "H7/H3/H2: addBlob gets the committed mm, after commit success, under the write lock, and merges all of it; commit feeds caches only after CommitBatch; no slurped row kind bypasses commit",
 		},
 		Run:       runC06,
 		DesignRef: "DESIGN.md §4 C06",
@@ -964,6 +964,24 @@ func c06LiveGate(cx *c06Ctx) {
 	}
 }
 
+// c06GuardKey renders the nearest branch condition that selects block b, without positions.
+func c06GuardKey(b *ssa.BasicBlock) string {
+	for _, f := range FactsAt(b) {
+		if ex, ok := f.Cond.(*ssa.Extract); ok {
+			if lk, ok := ex.Tuple.(*ssa.Lookup); ok && lk.CommaOk {
+				if pth := AccessPath(lk.X); !strings.HasPrefix(pth, "?") {
+					return pth + "[]"
+				}
+			}
+		}
+		if k := CondKey(f.Cond); k != "" {
+			return strings.ReplaceAll(k, " ", "")
+		}
+		break
+	}
+	return "other"
+}
+
 func c06Unconvert(v ssa.Value) ssa.Value {
 	for {
 		switch x := v.(type) {
@@ -1108,6 +1126,11 @@ var c06NeedsWriters = map[string]string{
 	"pkg/index.(*Index).noteBlobIndexedLocked":  "a dependency arrived: moves the waiters to readyReindex and drops the edge (rows follow in removeAllMissingEdges when the waiter is re-indexed)",
 	"pkg/index.(*Index).indexReadyBlobs":        "re-queues blobs whose out-of-order indexing failed, under the index lock",
 	"pkg/index.(*Index).indexReadyBlobs$1":      "pops one entry of the ready queue under the index lock",
+}
+
+// c06StoreSwapExceptions: functions that may replace Index.s on a live Index.
+var c06StoreSwapExceptions = map[string]string{
+	"pkg/index.(*Index).PreventStorageAccessForTesting": "test hook: installs a store whose Get/Find panic, so that search tests prove the corpus alone answers; nothing can be read from the swapped store",
 }
 
 // c06CorpusScratch: Corpus fields that carry no query-visible state.
@@ -1352,7 +1375,7 @@ func c06RuleOwner(cx *c06Ctx) {
 	for _, nr := range MaybeNilErrorReturns(newFn) {
 		nA++
 		site := c06LastInstr(nr.From)
-		construct := fmt.Sprintf("%s#open-loads-caches", FuncKey(newFn))
+		construct := FuncKey(newFn) + "#open-loads-caches"
 		domBy := func(set map[*ssa.Function]bool) bool {
 			for _, c := range CallsIn(newFn, false) {
 				if f := c.Callee(); f != nil && set[f] && c.Value() != nil {
@@ -1383,6 +1406,9 @@ func c06RuleOwner(cx *c06Ctx) {
 					freshCache = true
 				}
 			}
+		}
+		if reindex {
+			construct = FuncKey(newFn) + "#open-reindex-branch"
 		}
 		r.Check(reindex && freshCache, rule, construct, p.Pos(nr.Ret.Pos()),
 			"about-to-reindex branch: the rows were wiped, an empty deletes cache is installed",
@@ -1455,6 +1481,105 @@ func c06RuleOwner(cx *c06Ctx) {
 
 	// ---- C. Corpus fields
 	nC := c06CorpusOwner(cx, ws)
+
+	// ---- C'. Corpus.deletes has the same three roles as the index cache
+	scanFn := p.Func(c06Rel, "Corpus", "scanFromStorage")
+	corpusLoaders := map[*ssa.Function]bool{}
+	seenCD := map[*ssa.Function]bool{}
+	for _, w := range ws {
+		if w.typ != cx.tCorpus || w.field != "deletes" || seenCD[w.fn] {
+			continue
+		}
+		seenCD[w.fn] = true
+		fn := w.fn
+		construct := FuncKey(fn) + "#corpus.deletes"
+		if c06Fresh(w.base, fn) {
+			continue // constructor, reported under #corpus
+		}
+		nC++
+		if len(cx.queriesKind(fn, gDeleted)) > 0 {
+			corpusLoaders[fn] = true
+			r.OK(rule, construct, p.Pos(fn.Pos()), "loader: fills Corpus.deletes from the 'deleted' rows")
+			continue
+		}
+		bad := ""
+		callers := p.StaticCallers(fn)
+		if len(callers) == 0 || len(p.FuncValueUses(fn)) > 0 {
+			bad = "callers of this writer of Corpus.deletes cannot be enumerated"
+		}
+		for _, c := range callers {
+			fromMM := false
+			for _, a := range c.Args()[1:] {
+				if DependsOn(a, func(v ssa.Value) bool {
+					n, f, _, ok := c06LoadedField(v)
+					return ok && n == cx.tMM && f == "deletes"
+				}) {
+					fromMM = true
+				}
+			}
+			if !fromMM {
+				bad = fmt.Sprintf("called from %s with a claim that is not taken from mm.deletes (the claims whose 'deleted' rows were committed)", FuncKey(c.Fn))
+			}
+		}
+		r.Check(bad == "", rule, construct, p.Pos(fn.Pos()), "live updater: every caller passes a claim of mm.deletes", bad)
+	}
+	{
+		nC++
+		bad := ""
+		for _, nr := range MaybeNilErrorReturns(scanFn) {
+			dom := false
+			for _, c := range CallsIn(scanFn, false) {
+				if f := c.Callee(); f != nil && corpusLoaders[f] && c.Value() != nil {
+					if ok, _ := SuccessDominates(c.Value(), c06LastInstr(nr.From)); ok {
+						dom = true
+					}
+					if ev, _, _ := ErrValue(c.Value()); ev != nil && sameOrigin(nr.Val, ev) {
+						dom = true
+					}
+				}
+			}
+			if !dom {
+				bad = fmt.Sprintf("scanFromStorage can return nil (line %d) without having loaded Corpus.deletes from the 'deleted' rows: a restarted corpus forgets every deletion the live corpus knows", p.Fset.Position(nr.Ret.Pos()).Line)
+			}
+		}
+		r.Check(bad == "", rule, FuncKey(scanFn)+"#loads-deletes", p.Pos(scanFn.Pos()), "every success return of the corpus load is dominated by a successful load of the 'deleted' rows", bad)
+	}
+
+	// ---- C''. Index.corpus and Index.s: the corpus is built from this index's own rows, the store is never swapped
+	newCorpusFrom := p.Func(c06Rel, "", "NewCorpusFromStorage")
+	for _, w := range ws {
+		if w.typ != cx.tIndex || !(w.field == "corpus" || w.field == "s") {
+			continue
+		}
+		nC++
+		construct := FuncKey(w.fn) + "#Index." + w.field
+		site := p.Pos(w.in.Pos())
+		if c06Fresh(w.base, w.fn) {
+			r.OK(rule, construct, site, "constructor: field of the Index allocated here")
+			continue
+		}
+		if w.field == "s" {
+			if why, ok := c06StoreSwapExceptions[FuncKey(w.fn)]; ok {
+				r.OKTable(rule, construct, site, "exception: "+why)
+			} else {
+				r.Violation(rule, construct, site, "replaces the sorted.KeyValue of an existing Index: the deletes cache, needs maps and corpus were loaded from other rows than the ones now queried")
+			}
+			continue
+		}
+		bad := "Index.corpus is set to something other than NewCorpusFromStorage(x.s) of the same index: the corpus answers from rows that are not this index's rows"
+		if st, ok := w.in.(*ssa.Store); ok {
+			v := originValue(st.Val)
+			if ex, isEx := v.(*ssa.Extract); isEx {
+				v = ex.Tuple
+			}
+			if call, isCall := v.(*ssa.Call); isCall && (CallSite{w.fn, call}).Callee() == newCorpusFrom {
+				if n2, f, base, ok := c06LoadedField(call.Call.Args[0]); ok && n2 == cx.tIndex && f == "s" && c06SamePlace(base, w.base) {
+					bad = ""
+				}
+			}
+		}
+		r.Check(bad == "", rule, construct, site, "corpus built by NewCorpusFromStorage from this index's own store", bad)
+	}
 
 	// ---- D. mutationMap.deletes
 	noteDelete := p.Func(c06Rel, "mutationMap", "noteDelete")
@@ -2030,21 +2155,24 @@ func c06RuleLive(cx *c06Ctx) {
 				}
 			}
 		}
-		bad := ""
-		var badPos token.Pos = addBlob.Pos()
 		if kvLoop == nil || delLoop == nil {
-			bad = "addBlob does not range over mm.kv and mm.deletes of the mutation map it is given"
+			r.Violation(rule, construct, p.Pos(addBlob.Pos()), "addBlob does not range over mm.kv and mm.deletes of the mutation map it is given")
 		} else {
+			nbad := 0
 			for _, nr := range MaybeNilErrorReturns(addBlob) {
 				last := c06LastInstr(nr.From)
-				if !Precedes(kvLoop, last) || !Precedes(delLoop, last) {
-					bad = fmt.Sprintf("addBlob can return nil (line %d) without having merged mm.kv and mm.deletes: rows that commit just persisted never reach the live corpus, while a restart scans them", p.Fset.Position(nr.Ret.Pos()).Line)
-					badPos = nr.Ret.Pos()
-					break
+				if Precedes(kvLoop, last) && Precedes(delLoop, last) {
+					continue
 				}
+				nbad++
+				// one obligation per bypassing return, keyed by the guard that selects it (no positions)
+				r.Violation(rule, construct+"@"+c06GuardKey(nr.From), p.Pos(nr.Ret.Pos()),
+					fmt.Sprintf("addBlob can return nil (line %d) without having merged mm.kv and mm.deletes: rows that commit just persisted never reach the live corpus, while a restart scans them", p.Fset.Position(nr.Ret.Pos()).Line))
+			}
+			if nbad == 0 {
+				r.OK(rule, construct, p.Pos(addBlob.Pos()), "every success return of addBlob comes after the merge loops over mm.kv and mm.deletes")
 			}
 		}
-		r.Check(bad == "", rule, construct, p.Pos(badPos), "every success return of addBlob comes after the merge loops over mm.kv and mm.deletes", bad)
 	}
 
 	// (d) no slurped row kind (nor 'deleted') is written to the store behind commit
@@ -2103,7 +2231,7 @@ func c06RuleLive(cx *c06Ctx) {
 		r.Check(bad == "", rule, construct, p.Pos(w.pos), "exception: "+why, "exception no longer justified: "+bad)
 	}
 	r.Analysed("live_sites", n)
-	r.Floor(rule, 8)
+	r.Floor(rule, 10)
 }
 
 var c06RowCache struct {
